@@ -160,8 +160,16 @@ def run_suite(suite, tier, repo, ev, findings, prop, seed=0):
                    allow={regex:[desc]}, expect={regex:[desc]}, covers=[labels that must be SATISFIED somewhere],
                    timeout=callable(harness)->seconds, label, bounded)"""
     undecided = []
-    crate_dir = prepare(suite['crate'], repo)
+    if tier == 'quick' and suite.get('quick') is False:
+        return undecided
+    if suite.get('crate_dir'):
+        crate_dir = os.path.join(repo, suite['crate_dir'])       # harnesses compiled into a crate of the repository itself
+    else:
+        crate_dir = prepare(suite['crate'], repo)
     names = suite['harnesses'](tier, crate_dir)
+    if not names:
+        undecided.append('%s: no harness selected (no measured cost within the tier budget) - vacuity guard' % suite.get('label', suite['crate']))
+        return undecided
     configs = suite.get('configs', [()]) if tier == 'thorough' else suite.get('configs_quick', suite.get('configs', [()]))
     for feats in configs:
         cfgname = '+'.join(feats) or 'default'
